@@ -16,6 +16,7 @@ import (
 	"strings"
 	"time"
 
+	"github.com/markkurossi/mpc/circuit"
 	"github.com/markkurossi/mpc/compiler"
 	"github.com/markkurossi/mpc/compiler/utils"
 )
@@ -208,6 +209,11 @@ func analyseSSA(r *Res, text string) {
 // compileOn compiles the job on the given compiler instance (whose Params
 // are `params`).  Panics of the compiler are caught and reported as errors.
 func compileOn(c *compiler.Compiler, params *utils.Params, j *Job) (res *Res) {
+	return compileOnKeep(c, params, j, nil)
+}
+
+// compileOnKeep: compileOn that also hands the circuit back (keep != nil).
+func compileOnKeep(c *compiler.Compiler, params *utils.Params, j *Job, keep **circuit.Circuit) (res *Res) {
 	res = &Res{Name: j.Name}
 	start := time.Now()
 	defer func() {
@@ -224,6 +230,16 @@ func compileOn(c *compiler.Compiler, params *utils.Params, j *Job) (res *Res) {
 		res.Err = clipS(err.Error(), 300)
 		return
 	}
+	finishCircuit(res, circ, params, ssa.String())
+	if keep != nil && res.Err == "" {
+		*keep = circ
+	}
+	return
+}
+
+// finishCircuit: what the property observes of a compiled circuit
+// (AssignLevels + Marshal bytes as apps/garbled loadCircuit does, SSA listing).
+func finishCircuit(res *Res, circ *circuit.Circuit, params *utils.Params, ssaText string) {
 	circ.AssignLevels(params.Target)
 	hs := sha256.New()
 	bw := bufio.NewWriterSize(hs, 1<<20)
@@ -237,9 +253,8 @@ func compileOn(c *compiler.Compiler, params *utils.Params, j *Job) (res *Res) {
 	res.CircLen = cw.n
 	res.Gates = circ.NumGates
 	res.Wires = circ.NumWires
-	res.ssa = ssa.String()
+	res.ssa = ssaText
 	analyseSSA(res, res.ssa)
-	return
 }
 
 type countWriter struct {
